@@ -17,7 +17,7 @@ from ..spec import fmt_date, parse_date, clone
 
 ID = "C08"
 LEVEL = "exploration"
-N = {"quick": 96, "thorough": 4000}
+N = {"quick": 128, "thorough": 4000}
 BUDGET_S = {"quick": 150, "thorough": 1500}
 RULE = ("multi-season bundles (2-5 seasons, off-season skipped) with events placed so that earlier seasons end differently from the "
         "configured initial condition (storms, droughts, heat, cold, pre-irrigation, ponding); node M runs to the end, then for each "
@@ -33,7 +33,19 @@ PROFILE = {"n_seasons": [2, 2, 3, 3, 4, 5], "off_season_p": 0.0, "end_kinds": ["
 
 
 def gen_case(rng, tier, idx):
-    spec = gen_spec(rng, PROFILE)
+    prof = dict(PROFILE)
+    regime = ["mixed", "stress", "wet", "mixed"][idx % 4]
+    if regime == "stress":
+        # every season is likely to end in early senescence / crop death: the previous season must leave
+        # stress counters and timers behind for a missing reset to show
+        prof.update({"archetypes": ["semiarid", "warm"], "event_kinds": ["drought", "drought", "heat_wave", "cold_snap"], "events_per_year": 4.0,
+                     "irr_methods": [0, 0, 1, 2], "gw": 0.0, "sat_start_p": 0.0, "bunds": 0.0, "station_p": 0.0})
+    elif regime == "wet":
+        # seasons start and end waterlogged: saturated initial content, shallow table, storms, bunds
+        prof.update({"sat_start_p": 0.8, "gw": 0.6, "gw_depths": [0.3, 0.45, 0.6, 0.75, 1.0], "event_kinds": ["storm", "wet_spell", "wet_spell"],
+                     "events_per_year": 4.0, "bunds": 0.5, "field_p": 0.7, "archetypes": ["tropical", "temperate"], "station_p": 0.0,
+                     "soils": ["Clay", "ClayLoam", "SiltClay", "Paddy", "SiltClayLoam", "Loam"], "iwc_kinds": ["Prop"]})
+    spec = gen_spec(rng, prof)
     if spec.get("gw") and len(spec["gw"]["dates"]) > 1:
         # a time-varying table makes "the configured initial condition" depend on the start date (the initial
         # water content follows the table depth on the first day): keep the table constant for this comparison
